@@ -660,3 +660,17 @@ VARIANTS += [
     dict(prop="C18", name="shard-status-fields-swapped", expect="FLOW-shard-status|error-carries-own-status",
          edits=[dict(file=QPF, find="                my_status: status,\n                other_status: req.status,", replace="                my_status: req.status,\n                other_status: status,")]),
 ]
+
+OIF = "ipa-core/src/protocol/ipa_prf/oprf_padding/insecure.rs"
+VARIANTS += [
+    dict(prop="C12", name="eq11-sum-one-term-short", expect="SHAPE-eq11|right_hand_side:sum-range",
+         edits=[dict(file=OIF, find="    for k in n - big_delta + 1..=n {", replace="    for k in n - big_delta + 1..n {")]),
+    dict(prop="C12", name="eq11-prefactor-exponent", expect="SHAPE-eq11|right_hand_side:prefactor",
+         edits=[dict(file=OIF, find="    let r = E.powf(-epsilon);\n    let a = (1.0 - r) / (1.0 + r - 2.0 * (pow_u32(r, n + 1)));", replace="    let r = E.powf(-epsilon);\n    let a = (1.0 - r) / (1.0 + r - 2.0 * (pow_u32(r, n)));")]),
+    dict(prop="C12", name="eq11-prefactor-rewritten", benign=True,
+         edits=[dict(file=OIF, find="    let r = E.powf(-epsilon);\n    let a = (1.0 - r) / (1.0 + r - 2.0 * (pow_u32(r, n + 1)));", replace="    let r = E.powf(-epsilon);\n    let a = (1.0 - r) / ((1.0 - 2.0 * pow_u32(r, n + 1)) + r);")]),
+    dict(prop="C12", name="eq11-strict-acceptance", expect="SHAPE-eq11|find_smallest_n:first-n-with-rhs<=delta",
+         edits=[dict(file=OIF, find="        if small_delta >= right_hand_side(n, big_delta, epsilon) {", replace="        if small_delta > right_hand_side(n, big_delta, epsilon) {")]),
+    dict(prop="C12", name="eq11-scan-from-zero", expect="SHAPE-eq11|find_smallest_n",
+         edits=[dict(file=OIF, find="    for n in big_delta.. {", replace="    for n in big_delta + 1.. {")]),
+]
